@@ -225,7 +225,7 @@ func runC12_2(c *core.Ctx) {
 // poolPut matches bsPool.Put(x) / byteslice.Put / rbPool.Put and returns the argument.
 func poolPut(f *fn, call *ast.CallExpr) (ast.Expr, string) {
 	cf := flow.CalleeFunc(f.Info, call)
-	if cf == nil || cf.Pkg() == nil || cf.Name() != "Put" || len(call.Args) != 1 {
+	if cf == nil || cf.Pkg() == nil || nameOf(cf) != "Put" || len(call.Args) != 1 {
 		return nil, ""
 	}
 	switch cf.Pkg().Path() {
@@ -367,7 +367,7 @@ func runC12_5(c *core.Ctx) {
 	found := false
 	sol.Walk(func(b *flow.Block, i int, n ast.Node, before uint64) {
 		for _, call := range flow.Calls(n) {
-			if cf := flow.CalleeFunc(put.Info, call); cf != nil && cf.Name() == "Put" && cf.Pkg() != nil && cf.Pkg().Path() == "sync" {
+			if cf := flow.CalleeFunc(put.Info, call); cf != nil && nameOf(cf) == "Put" && cf.Pkg() != nil && cf.Pkg().Path() == "sync" {
 				found = true
 				c.Check(before&fReset != 0, put.Name, "Reset before pooling", call.Pos(), "a pooled ring buffer is always empty",
 					"a ring buffer is put into the pool without Reset(): the next connection obtaining it would see the previous connection's bytes")
